@@ -1,3 +1,112 @@
-From Thunder Require Import Lib.Json.
-Theorem placeholder : True. Proof. exact I. Qed.
-Print Assumptions placeholder.
+(** C06 -- federation is transparent: the gateway answers like one combined server.
+
+    Model: Federation/Normalize.v (flattenFragments, mergeSameAlias as repaired and as it was, flatten),
+    Federation/Planner.v (selectService, planObject, planUnion, key selections, paths),
+    Federation/Executor.v (extractKeys as repaired and as it was, the sub-query a service answers, stitching
+    result i into target i, deleteKey; [fed_exec] = the whole gateway; [eval_ref] = GraphQL's reference
+    semantics on one combined server).  On every run the model's normalised query, plan and answer are
+    compared with the gateway's, and [eval_ref] with the harness' reference evaluator (Federation/Check06.v).
+
+    FULL STATEMENT of the property (NOT proved as one theorem):
+
+      forall w g pick q, fed_ok g -> valid g q -> covers_unions q ->
+        option_map norm (fed_exec w g pick false true q) =
+        option_map (fun r => norm (add_union_typenames g q r)) (eval_ref w g fuel "Query" 0 q)
+
+    for every world [w] (every resolver a function of object, field and arguments), every federation [g]
+    (partition of the fields over services, federated keys, ServiceSelector), every resolution [pick] of the
+    "some service that has the field" choice; in particular independent of [pick].
+    Proved below: the parts of that refinement named in the property text -- (1) every sub-query sent to a
+    service uses only fields of that service, at every depth, for every choice ([subquery_closed]);
+    (2) normalisation keeps every selection: flattenFragments collects exactly GraphQL's CollectFields, and the
+    repaired mergeSameAlias gives every alias exactly its sub-selections, in order
+    ([normalisation_keeps_every_selection_partial]); (3) stitching hands result i to target i
+    ([stitching_consumes_in_order]); and the two defects of the unrepaired code as refutations with witnesses
+    that were replayed on the implementation (corpus/C06).  Missing for the full theorem: the induction that
+    composes (1)-(3) through the plan tree (a sub-plan's answer for key i is the reference answer of the
+    selections moved to that service, evaluated at the object key i identifies), the union expansion of
+    [flatten], and independence of [pick]; the harness checks those end to end on every run instead. *)
+From Coq Require Import List String Bool ZArith Permutation.
+From Thunder Require Import Lib.Json Federation.Merge Federation.Normalize Federation.Planner Federation.Executor
+  Federation.NormalizeProofs Federation.PlannerProofs Federation.ExecutorProofs Federation.FedWitness.
+Import ListNotations.
+Open Scope string_scope.
+
+(** (1) Each sub-query sent to a service only uses fields that service exposes.
+    [fed_ok g] is decidable and evaluated on every generated federation: a service serving a field of a type
+    has _federation on that type and on the objects the field returns; whoever has _federation on a type
+    serves the fields other services use as its federated keys (what validateFederatedObjects /
+    validateFederationKeys enforce).  Arguments are not part of the model's schema; the harness checks them on
+    every recorded sub-request. *)
+Theorem subquery_closed :
+  forall g pick fuel flat p,
+    fed_ok g = true -> (forall l s, pick l = Some s -> In s l) ->
+    forallb not_fed flat = true ->
+    plan_root g pick fuel flat = Some p -> forallb (plan_closed g) (p_after p) = true.
+Proof. exact PlannerProofs.subquery_closed. Qed.
+Print Assumptions subquery_closed.
+
+(** (2) Normalisation keeps every selection (one level of [flatten]; see the header for what is missing).
+    a: flattenFragments, after the @skip/@include filter planObject applies, is a permutation of CollectFields;
+    b: mergeSameAlias (as repaired) gives each alias exactly the sub-selections the query gave it, in order. *)
+Theorem normalisation_keeps_every_selection_partial :
+  (forall g obj l flat, flatten_frags g obj l = Some flat ->
+     Permutation (filter incl_node flat) (collect_all g obj l)) /\
+  (forall l r, Forall hs_ok l -> merge_same_alias false l = Some r -> forall a, subs_of a r = subs_of a l).
+Proof. split; [exact NormalizeProofs.flatten_frags_collects | exact NormalizeProofs.merge_same_alias_keeps_subs]. Qed.
+Print Assumptions normalisation_keeps_every_selection_partial.
+
+(** ... which the code before the repair violated (DESIGN F15). *)
+Theorem merge_same_alias_original_refuted :
+  exists l r a, Forall hs_ok l /\ merge_same_alias true l = Some r /\ subs_of a r <> subs_of a l.
+Proof. exact NormalizeProofs.merge_same_alias_original_loses. Qed.
+Print Assumptions merge_same_alias_original_refuted.
+
+(** (3) Stitching: [graft] walks the result exactly as extractKeys does and consumes, from the front, exactly
+    as many sub-results as extractKeys returned keys -- result i goes to target i. *)
+Theorem stitching_consumes_in_order :
+  forall fuel node path ks,
+    extract_keys true fuel node path = Some ks ->
+    forall rs extra node' rest, List.length rs = List.length ks ->
+      graft fuel node path (rs ++ extra) = Some (node', rest) -> rest = extra.
+Proof. exact ExecutorProofs.graft_consumes. Qed.
+Print Assumptions stitching_consumes_in_order.
+
+(** End to end on a concrete two-service federation: the gateway as repaired agrees with the reference
+    semantics where the code as it was did not.  F15: { self{p} self{ self{p} self{q} } } lost q. *)
+Theorem gateway_loses_repeated_alias_refuted :
+  exists w g pick q,
+    option_map norm (fed_exec w g pick true true q) <> option_map norm (eval_ref w g 5 "Query" 0%Z q) /\
+    option_map norm (fed_exec w g pick false true q) = option_map norm (eval_ref w g 5 "Query" 0%Z q).
+Proof.
+  exists ww, wg, pick1, q15. destruct f15_repaired as [H1 H2]. split.
+  - rewrite f15_original, H2. intros H. discriminate.
+  - rewrite H1, H2. reflexivity.
+Qed.
+Print Assumptions gateway_loses_repeated_alias_refuted.
+
+(** F16: a null element at a service hop made extractKeys fail the whole request. *)
+Theorem gateway_fails_on_null_at_hop_refuted :
+  exists w g pick q r,
+    fed_exec w g pick false false q = None /\
+    option_map norm (eval_ref w g 5 "Query" 0%Z q) = Some r /\
+    option_map norm (fed_exec w g pick false true q) = Some r.
+Proof.
+  exists ww, wg, pick1, q16, ans16. destruct f16_repaired as [H1 H2].
+  split; [exact f16_original | split; [exact H2 | exact H1]].
+Qed.
+Print Assumptions gateway_fails_on_null_at_hop_refuted.
+
+(** Non-vacuity of (1): the witness federation satisfies [fed_ok], the F15 query normalises and plans, and
+    its plan has a hop (a sub-plan under the sub-plan of s1). *)
+Example subquery_closed_nonvacuous :
+  fed_ok wg = true /\
+  exists flat p, flatten 10 false wg (RObj "Query") (Some q16) = Some (Some flat) /\
+                 forallb not_fed flat = true /\
+                 plan_root wg pick1 10 flat = Some p /\
+                 match p_after p with [s1] => List.length (p_after s1) = 1 | _ => False end.
+Proof.
+  split; [vm_compute; reflexivity|].
+  eexists. eexists. split; [vm_compute; reflexivity|]. split; [vm_compute; reflexivity|].
+  split; [vm_compute; reflexivity|]. vm_compute. reflexivity.
+Qed.
